@@ -15,6 +15,13 @@ def check(ctx):
     res = os.path.join(ctx.scratch, "miss_res.ndjson")
     ctx.vh_ok(["c16-replay", cases, res])
     run_results(ctx, res, "MC_Miss-cases-replayed-on-Package.StatisticalMissSegments")
+    # large cases the other way round: up to 300 gaps through the real code, judged by the declarative MissExact
+    tr = os.path.join(ctx.scratch, "miss_trace.ndjson")
+    ctx.vh_ok(["c16-gen", 200 if thorough else 40, tr])
+    events = vlib.read_nd(tr, quoted=False)
+    from checks.c01 import trace_validate
+    trace_validate(ctx, "Trace_Miss", tr, events, "large-range-reports-validated-by-Trace_Miss",
+                   lambda inv, e: "%s gaps>=%d" % (inv, 128 if len(e.get("segs", [])) >= 127 else 0))
     # the same situations driven through the connection: 0x1212 -> 0x9212 on the wire, resend, 0x1212 again
     cfgs = [dict(D="JS", NFiles=1, MaxChunk=2, MaxSteps=8, MaxDup=0, Ver=1)]
     if thorough:
